@@ -197,6 +197,7 @@ func (e *Explorer) exploreOnce() error {
 		wg.Add(1)
 		go func() {
 			defer wg.Done()
+			defer mc.Guard()
 			w, root, err := e.NewRoot()
 			if err != nil {
 				mu.Lock()
